@@ -183,8 +183,11 @@ def lattice_cases(rng, max_len, palette, n_random, fault_kinds=False):
 #   0 = span.index (list / tuple / range)   1 = the fallback (NumPy array)   2 = answers recorded from the run (PeriodIndex: get_loc
 #   parses strings and partial dates)   3 = pandas Index of plain labels (modelled get_loc: SolveAllSpan.locate_getloc)
 SPAN_KIND = {'range': 0, 'list_str': 0, 'tuple_str': 0, 'list_dup': 0, 'np_int': 1, 'np_str': 1, 'np_dup': 1,
-             'pd_int': 3, 'pd_str': 3, 'period_q': 2, 'pd_dup': 3, 'pd_dupnm': 3, 'list_dupnm': 0, 'np_dupnm': 1}
-SPAN_NODUP = ('range', 'list_str', 'tuple_str', 'np_int', 'np_str', 'pd_int', 'pd_str', 'period_q')
+             'pd_int': 3, 'pd_str': 3, 'period_q': 2, 'pd_dup': 3, 'pd_dupnm': 3, 'list_dupnm': 0, 'np_dupnm': 1,
+             # spans holding a FALSY label (the integer 0, the empty string) at position 1: a label is a label, never "not given"
+             'range0': 0, 'list_empty': 0, 'np_int0': 1, 'pd_int0': 3}
+SPAN_NODUP = ('range', 'list_str', 'tuple_str', 'np_int', 'np_str', 'pd_int', 'pd_str', 'period_q', 'range0', 'list_empty', 'np_int0', 'pd_int0')
+INT_LABELS = ('range', 'np_int', 'pd_int', 'range0', 'np_int0', 'pd_int0')
 
 
 def make_span(span_type, n):
@@ -198,6 +201,12 @@ def make_span(span_type, n):
         return strs
     if span_type == 'tuple_str':
         return tuple(strs)
+    if span_type == 'range0':
+        return range(-1, n - 1)
+    if span_type == 'list_empty':
+        return ['' if i == 1 else 'p%d' % i for i in range(n)]
+    if span_type == 'np_int0':
+        return np.arange(-1, n - 1)
     if span_type == 'list_dup':
         return dups
     if span_type == 'list_dupnm':
@@ -219,6 +228,8 @@ def make_span(span_type, n):
         return pd.Index(dups, dtype=object)
     if span_type == 'pd_dupnm':
         return pd.Index(dupnm, dtype=object)
+    if span_type == 'pd_int0':
+        return pd.Index(list(range(-1, n - 1)))
     if span_type == 'period_q':
         return pd.period_range('2000Q1', periods=n, freq='Q')
     raise AssertionError(span_type)
@@ -235,7 +246,7 @@ def label_of(span_type, span, n, spec):
         return str(span[spec[1]])
     if k == 'partial' and span_type == 'period_q':
         return '2000'                                  # a year against a quarterly index: get_loc returns a slice
-    if span_type in ('range', 'np_int', 'pd_int'):
+    if span_type in INT_LABELS:
         return 1999 if k == 'unknown' else -7
     if span_type == 'period_q':
         import pandas as pd
